@@ -84,8 +84,14 @@ Proof.
   unfold populate, r_populate. simpl. apply IH. apply abs_add, A.
 Qed.
 
-Lemma abs_synchronize s r : abs s r -> abs (synchronize s) r.
+Lemma abs_synchronize s r l : abs s r -> abs (synchronize s l) r.
 Proof. unfold abs, SetInv, is_ordered, synchronize, hm. simpl. tauto. Qed.
+
+Lemma abs_with_lock s r l : abs s r -> abs (fst (with_lock s l)) r.
+Proof.
+  unfold with_lock. destruct (Z.eqb l 0); [auto|]. destruct (mtx_set (s_mtx s) l) as [m ok].
+  unfold abs, SetInv, is_ordered, hm. simpl. tauto.
+Qed.
 
 Lemma abs_unmarshal items : forall s r, abs s r ->
   abs (fst (unmarshal s items)) (fst (r_unmarshal r items)) /\ snd (unmarshal s items) = snd (r_unmarshal r items).
